@@ -1,4 +1,4 @@
-import Proofs.C10.Pkh
+import Proofs.C10.Tap
 import Props.C09
 /-!
 # C10 — what the library builds and signs, its own engine accepts; tampering is rejected
@@ -68,20 +68,59 @@ theorem finalize_p2pkh (vk : Bytes → Bool) (h pk sig : Bytes) (hl : h.length =
 
 /-! ## T1 — closure -/
 
+/-- the finalizer on a p2pk input: scriptSig `push sig`, no witness, no dummy -/
+theorem finalize_p2pk (vk : Bytes → Bool) (pk sig : Bytes) (hl : pk.length = 33) :
+    finalizedInput vk ⟨some (p2pk pk), [], [], [(pk, sig)]⟩ = .ok (pushData sig, []) := by
+  have e : (p2pk pk).length = 35 := by simp [p2pk_eq pk hl, pkScript, hl]
+  have hns : isP2sh (p2pk pk) = false := by simp [isP2sh, e]
+  have hms : p2msMAndKeys vk (p2pk pk) = none := by simp [p2msMAndKeys, e]
+  have hnw : isP2wpkh (p2pk pk) = false := by simp [isP2wpkh, e]
+  have hnk : isP2pkh (p2pk pk) = false := by simp [isP2pkh, e]
+  have hne : (p2pk pk).isEmpty = false := by
+    cases h : p2pk pk with
+    | nil => simp [h] at e
+    | cons _ _ => rfl
+  simp [finalizedInput, pushedSigs, satisfiedScript, spentScript, hns, hms, hnw, hnk, hne, bip147Dummy, isP2ms,
+    serializePushes, bind, Except.bind, pure, Except.pure]
+
+/-- T1 (p2pk).  For EVERY flag set: what the finalizer writes for a `<pk> CHECKSIG` output (compressed key) is accepted,
+    given the signature (2..75 bytes) passes the encoding checks of these flags, is not the key itself (so FindAndDelete
+    finds nothing), and the signature oracle accepts it over the scriptPubKey as script code. -/
+theorem closure_p2pk (vk : Bytes → Bool) (env : VerifyEnv) (sig pk : Bytes)
+    (henc : checkSignatureEncoding env.flags sig = .ok ()) (hs2 : 2 ≤ sig.length) (hs : sig.length < 76)
+    (hpk : isCompressedPubKey pk = true) (hne : sig ≠ pk)
+    (hsig : env.checker.checkECDSA sig pk (p2pk pk) .BASE = .ok true) :
+    ∃ ss wit, finalizedInput vk ⟨some (p2pk pk), [], [], [(pk, sig)]⟩ = .ok (ss, wit) ∧
+      verifyScript env ss (p2pk pk) wit = .ok () := by
+  have hl : pk.length = 33 := by
+    simp only [isCompressedPubKey, Bool.and_eq_true, beq_iff_eq] at hpk; exact hpk.1
+  refine ⟨_, _, finalize_p2pk vk pk sig hl, ?_⟩
+  rw [p2pk_eq pk hl] at hsig ⊢
+  exact verify_p2pk env sig pk henc hs2 hs hpk hne hsig
+
 /-- T1 (p2pkh).  For EVERY flag set: what the finalizer writes for a p2pkh input is accepted by `VerifyScript`,
     provided the output commits to the hash160 of the key, the key is compressed, the signature (2..75 bytes; a DER
     signature with its hash-type byte is 9..73) passes the encoding checks of these flags, the signature oracle accepts
-    it for this key over the scriptPubKey as script code, and FindAndDelete does not find the pushed signature inside
-    that script code (`hfd`: it could only if the 20-byte hash WERE the signature). -/
+    it for this key over the scriptPubKey as script code, and the signature is not the 20-byte hash itself.
+    The last hypothesis cannot be dropped: FindAndDelete removes `push sig` from the script code exactly when it occurs at
+    an instruction boundary, which in `DUP HASH160 <h> EQUALVERIFY CHECKSIG` is the push of `h` -- and a 20-byte string
+    can be a BIP66-valid signature encoding (r, s of a few bytes), so an output whose hash160 happens to equal its own
+    spending signature is a (cryptographically absurd, logically possible) input on which signer and engine hash
+    different script codes.  It is implied by `sig.length ≠ 20`, which every signature with a 32-byte r or s satisfies. -/
 theorem closure_p2pkh (vk : Bytes → Bool) (env : VerifyEnv) (h sig pk : Bytes) (hl : h.length = 20)
     (hh : env.hashes.ripemd160 (env.hashes.sha256 pk) = h)
     (henc : checkSignatureEncoding env.flags sig = .ok ()) (hs2 : 2 ≤ sig.length) (hs : sig.length < 76)
-    (hpk : isCompressedPubKey pk = true)
-    (hfd : findAndDelete (p2pkh h) (pushData sig) = (p2pkh h, 0))
+    (hpk : isCompressedPubKey pk = true) (hne : sig ≠ h)
     (hsig : env.checker.checkECDSA sig pk (p2pkh h) .BASE = .ok true) :
     ∃ ss wit, finalizedInput vk ⟨some (p2pkh h), [], [], [(pk, sig)]⟩ = .ok (ss, wit) ∧
       verifyScript env ss (p2pkh h) wit = .ok () :=
-  ⟨_, _, finalize_p2pkh vk h pk sig hl, verify_p2pkh env h sig pk hl hh henc hs2 hs hpk hfd hsig⟩
+  ⟨_, _, finalize_p2pkh vk h pk sig hl,
+    verify_p2pkh env h sig pk hl hh henc hs2 hs hpk (findAndDelete_pkh h sig hl hs hne) hsig⟩
+
+/-- the FindAndDelete fact itself: on a p2pkh script code nothing is found unless the signature IS the hash -/
+theorem find_and_delete_p2pkh (h sig : Bytes) (hl : h.length = 20) (hs : sig.length < 76) (hne : sig ≠ h) :
+    findAndDelete (p2pkh h) (pushData sig) = (p2pkh h, 0) :=
+  findAndDelete_pkh h sig hl hs hne
 
 /-- T1 (p2wpkh).  For every verification environment whose flags include WITNESS -- any of btclib's default set
     `ALL_FLAGS`, Core's standard set, or all twenty-one flags -- what the finalizer writes for a p2wpkh input is
@@ -113,6 +152,61 @@ theorem closure_p2sh_p2wpkh (vk : Bytes → Bool) (env : VerifyEnv) (h hr sig pk
       verifyScript env ss (p2sh hr) wit = .ok () :=
   ⟨_, _, finalize_p2sh_p2wpkh vk h hr pk sig hl hrl,
     verify_p2sh_p2wpkh env h hr sig pk hl hrl hP hW hnz hhr hh henc hslen hpk hsig⟩
+
+/-- the taproot finalizer on an input carrying a key path signature: empty scriptSig, witness `[sig]` (the key path is
+    preferred whatever else the input carries), given the signature says the hash type the input asks for and verifies -/
+theorem finalize_taproot_key (lh : Nat → Bytes → Bytes) (vk : Nat → Bytes → Bool) (vl : Nat → Bytes → Bytes → Bytes → Bool)
+    (sht : Option Nat) (sig : Bytes) (ss : List (Bytes × Bytes)) (ls : List (Bytes × Bytes × Nat)) (ht : Nat)
+    (hne : sig.isEmpty = false) (hht : tapSigHashType sig sht = .ok ht) (hv : vk ht (sig.take 64) = true) :
+    finalizedTaproot lh vk vl ⟨sht, sig, ss, ls⟩ = .ok ([], [sig]) := by
+  simp [finalizedTaproot, hne, hht, hv, bind, Except.bind, pure, Except.pure]
+
+/-- T1 (taproot key path, with or without a script tree -- the output key `q` is whatever the descriptor derived).  For
+    every flag set with WITNESS: the finalizer's `[sig]` is accepted, given the output key is not a "false" byte string
+    and the Schnorr oracle accepts `sig` for `q` under BIP341's key-path message. -/
+theorem closure_taproot_key (lh : Nat → Bytes → Bytes) (vk : Nat → Bytes → Bool) (vl : Nat → Bytes → Bytes → Bytes → Bool)
+    (env : VerifyEnv) (q sig : Bytes) (sht : Option Nat) (ss : List (Bytes × Bytes)) (ls : List (Bytes × Bytes × Nat))
+    (ht : Nat) (hq : q.length = 32) (hW : has env.flags FLAG_WITNESS = true) (hnz : castToBool q = true)
+    (hne : sig.isEmpty = false) (hht : tapSigHashType sig sht = .ok ht) (hv : vk ht (sig.take 64) = true)
+    (hsig : env.checker.checkSchnorr sig q .TAPROOT 0xFFFFFFFF = none) :
+    ∃ s wit, finalizedTaproot lh vk vl ⟨sht, sig, ss, ls⟩ = .ok (s, wit) ∧ verifyScript env s (p2tr q) wit = .ok () :=
+  ⟨_, _, finalize_taproot_key lh vk vl sht sig ss ls ht hne hht hv, verify_tr_key env q sig hq hW hnz hsig⟩
+
+/-- the taproot finalizer on an input carrying ONE script path signature for a single-key leaf: witness
+    `[sig, leaf, control block]` -/
+theorem finalize_taproot_leaf (lh : Nat → Bytes → Bytes) (vk : Nat → Bytes → Bool) (vl : Nat → Bytes → Bytes → Bytes → Bool)
+    (sht : Option Nat) (x lhash sig cb : Bytes) (ht : Nat) (hx : x.length = 32) (hlh : lhash.length = 32)
+    (hleaf : lh 0xc0 (pkLeaf x) = lhash)
+    (hht : tapSigHashType sig sht = .ok ht) (hv : vl ht lhash x (sig.take 64) = true) :
+    finalizedTaproot lh vk vl ⟨sht, [], [(x ++ lhash, sig)], [(cb, pkLeaf x, 0xc0)]⟩ = .ok ([], [sig, pkLeaf x, cb]) := by
+  have h1 : (x ++ lhash).take 32 = x := List.take_left' hx
+  have h2 : (x ++ lhash).drop 32 = lhash := List.drop_left' hx
+  have hk : singleLeafKey (pkLeaf x) = .ok x := by
+    have hd : (x ++ [172]).take 32 = x := List.take_left' hx
+    have h33 : (x ++ [172])[32]? = some 172 := by
+      rw [List.getElem?_append_right (by omega)]; simp [hx]
+    simp [singleLeafKey, pkLeaf, Gen.Spend.PUSH_32, Gen.Spend.OP_CHECKSIG, Gen.Spend.SINGLE_KEY_LEAF_SIZE, getB, hx,
+      List.getD, h33, hd]
+  have hls : Spend.leafScript lh ⟨sht, [], [(x ++ lhash, sig)], [(cb, pkLeaf x, 0xc0)]⟩ lhash = .ok (pkLeaf x, cb) := by
+    simp [Spend.leafScript, hleaf]
+  simp [finalizedTaproot, Gen.Spend.LEAF_HASH_SIZE, h1, h2, hht, hlh, hls, hk, hv, bind, Except.bind,
+    pure, Except.pure]
+
+/-- T1 (taproot script path, `<x> CHECKSIG` leaf).  For every flag set with WITNESS: the finalizer's
+    `[sig, leaf, control]` is accepted, given a control block of leaf version 0xc0 and length 33 + 32·m (m ≤ 128), the
+    commitment check accepting it for this leaf's TapLeaf hash (C12: `Props.C12.completeness` for the control blocks
+    `input_script_sig` builds), a non-empty signature of at most 520 bytes, and the Schnorr oracle accepting it for the
+    leaf key under BIP342's message. -/
+theorem closure_taproot_pk_leaf (env : VerifyEnv) (q x sig control : Bytes) (m : Nat)
+    (hq : q.length = 32) (hl : x.length = 32)
+    (hW : has env.flags FLAG_WITNESS = true) (hnz : castToBool q = true)
+    (hcl : control.length = 33 + 32 * m) (hm : m ≤ 128) (hv : getB control 0 / 2 * 2 = 0xc0)
+    (hne : sig.isEmpty = false) (hslen : sig.length ≤ 520)
+    (hcom : env.commitment control q (env.taggedHash "TapLeaf".toUTF8.toList
+      (UInt8.ofNat 0xc0 :: (Core.compactSize (pkLeaf x).length ++ pkLeaf x))) = .ok true)
+    (hsig : env.checker.checkSchnorr sig x .TAPSCRIPT 0xFFFFFFFF = none) :
+    verifyScript env [] (p2tr q) [sig, pkLeaf x, control] = .ok () :=
+  verify_tr_leaf env q x sig control m hq hl hW hnz hcl hm hv hne hslen hcom hsig
 
 /-- the three flag sets the harness runs (regenerated from `engine/flags.py`) all have P2SH and WITNESS -/
 theorem standard_flag_sets :
@@ -256,10 +350,8 @@ example : (pushedSigs (fun _ => true)
 /-
 NOT PROVED (full statements kept; the executable composition `Spend.verifyInput`, run against btclib's engine on every
 finished input and on tampered ones, is what covers them):
-* closure_p2pk: as `closure_p2pkh` with `scriptSig = push sig`;
 * closure_multisig (bare / p2sh / p2wsh / p2sh-p2wsh): for `1 ≤ k ≤ n ≤ 20`, keys `ks`, a sublist of `k` signers in key
   order: `verifyScript env (finalize …) = ok` -- by induction on `ks` through `multisigLoop`;
-* closure_taproot_key / closure_taproot_pk_leaf: with `checkSchnorr` and `commitment` discharged by C03-T1 / C12-T1;
 * checker completeness: `checkECDSA C cx (DER (sign …) ‖ ht) pk sc sv = ok true` from `Props.C02.ecdsa_sign_verifies` and
   `Props.C02.der_parse_serialize` (needs: the engine's digest = the signer's, proved above for p2wpkh).
 -/
